@@ -128,18 +128,18 @@ Definition set_env (g : env) (x : nat) (t : ty) : option env :=
   | Some t0 => if ty_eq_dec t0 t then Some g else None
   end.
 
-(* does every path through the block end in a return? *)
+(* does the block return on every path?  Some top-level statement must: a `return e`, or an if/else whose
+   two branches both do (position does not matter: the compiler marks the scope when it meets such a
+   statement; a `while` or an `if` without `else` never counts) *)
 Fixpoint returns_b (b : block) : bool :=
   match b with
   | BNil => false
-  | BCons s r => match r with
-                 | BNil => match s with
-                           | SReturn (Some _) => true
-                           | SIf _ t e => returns_b t && returns_b e
-                           | _ => false
-                           end
-                 | _ => returns_b r
-                 end
+  | BCons s r =>
+      match s with
+      | SReturn (Some _) => true
+      | SIf _ t e => returns_b t && returns_b e
+      | _ => false
+      end || returns_b r
   end.
 
 Fixpoint all_elems (n : nty) (es : exprs) : list nty :=
